@@ -166,6 +166,8 @@ def rank_of(r, s, t):
         # list accumulator: rank of the appended element
         step = strip(t[5])
         elems = [x for x in walk(step) if head(x) == "mut" and x[1] == "append" and len(x[3]) == 1]
+        if not elems and head(step) in ("bin", "fold"):
+            return rank_of(r, s, step)
         if not elems:
             return None, "accumulator outside the idiom list"
         ranks = [rank_of(r, s, e[3][0]) for e in elems]
@@ -173,6 +175,11 @@ def rank_of(r, s, t):
         return rk, "; ".join(x[1] for x in ranks)
     if head(t) == "comp" and t[1] in ("list", "gen"):
         return rank_of(r, s, t[2])
+    if head(t) == "bin" and t[1] == "+":
+        parts = [rank_of(r, s, x) for x in (t[2], t[3]) if head(strip(x)) != "acc"]
+        if parts and all(p[0] is not None for p in parts):
+            return max(p[0] for p in parts), "; ".join(p[1] for p in parts)
+        return None, "; ".join(p[1] for p in parts) or "accumulator only"
     if head(t) == "ite":
         a, b = rank_of(r, s, t[2]), rank_of(r, s, t[3])
         if a[0] is None or b[0] is None:
